@@ -1,2 +1,21 @@
-From Coq Require Import ZArith.
-From C05 Require Import Model.
+(* C05 property theorems.  Nothing but statements closed by `exact`, each followed by Print Assumptions.
+   Representation: 0 is the field zero, i in [1,N] (N = q-1) is g^i; val/phi map a representation to the ring. *)
+From Coq Require Import ZArith List.
+From C05 Require Import Model Checker ProofsZech ProofsArr ProofsField ProofsProps.
+Local Open Scope Z_scope.
+
+Theorem C05_zech_macros_are_ring_operations : Zech_ops_stmt.       Proof. exact zech_ops. Qed.
+Print Assumptions C05_zech_macros_are_ring_operations.
+Theorem C05_checked_tables_give_polynomial_arithmetic_mod_f : Field_ops_stmt.   Proof. exact field_ops. Qed.
+Print Assumptions C05_checked_tables_give_polynomial_arithmetic_mod_f.
+Theorem C05_representation_bijection_and_cardinality : Repr_bijection_stmt.     Proof. exact repr_bijection. Qed.
+Print Assumptions C05_representation_bijection_and_cardinality.
+Theorem C05_array_forms_elementwise_all_lengths : forall mun mo plun, array_forms_spec mun mo plun.
+Proof. exact array_forms_ok. Qed.
+Print Assumptions C05_array_forms_elementwise_all_lengths.
+Theorem C05_dotprod_is_the_loop_sum : forall mun plun a b, dotprod_spec mun plun a b.
+Proof. exact dotprod_ok. Qed.
+Print Assumptions C05_dotprod_is_the_loop_sum.
+Theorem C05_array_forms_pre_decrement_loop_refuted : pre_decrement_loop_is_wrong.
+Proof. exact pre_decrement_loop_refuted. Qed.
+Print Assumptions C05_array_forms_pre_decrement_loop_refuted.
